@@ -106,7 +106,8 @@ def parseLoop : Nat → Str → Nat → Int → Nat → List Token → Except ME
           else parseLoop fuel r1 (pos0 + 1) (prio + 10) (Primary + LParen + Sign + NullaryCall) acc
         else if ch == 41 then
           let prio' := prio - 10
-          if has expected NullaryCall then parseLoop fuel r1 (pos0 + 1) prio' (Operator + RParen) ({ type := .null } :: acc)
+          if prio' < 0 then .error (.math (pos0 + 1))            -- Unmatched ")"
+          else if has expected NullaryCall then parseLoop fuel r1 (pos0 + 1) prio' (Operator + RParen) ({ type := .null } :: acc)
           else if !has expected RParen then .error (.math (pos0 + 1))
           else parseLoop fuel r1 (pos0 + 1) prio' (Operator + RParen) acc
         else .error (.math pos0)
